@@ -1,11 +1,15 @@
 package props
 
 import (
+	"context"
 	"fmt"
 	"testing"
+	"testing/synctest"
+	"time"
 
 	"pgregory.net/rapid"
 
+	"verif/netsim"
 	"verif/obs"
 )
 
@@ -130,6 +134,14 @@ func genCliBlocking(v6 bool) *rapid.Generator[cliScenario] {
 			c.ReleaseAt = evTick(sc.T - 8)
 		}
 		sc.Calls = []cliCall{c}
+		// history: once the first call is over (it may have ended while the receive loop was still parked on its
+		// full buffer), a later call on the same client gets a response of its own
+		if rapid.Bool().Draw(t, "later-call") {
+			end := sc.T*((1<<uint(sc.Tries))-1) + 16
+			c2 := cliCall{Start: callStart(1, end), Xid: rapid.IntRange(0, 2).Draw(t, "xid2"), Matcher: rapid.SampledFrom([]int{0, 1}).Draw(t, "m2"), Want: c.Want, CancelAt: -1, Deadline: -1}
+			sc.Calls = append(sc.Calls, c2)
+			sc.Dels = append(sc.Dels, cliDeliver{At: evTick(c2.Start + rapid.IntRange(1, sc.T-8).Draw(t, "resp2")), Xid: c2.Xid, Typ: c.Want, Serial: n + 1, Kind: dgGood})
+		}
 		return sc
 	})
 }
@@ -359,9 +371,45 @@ func TestC12_Grid(t *testing.T) {
 	c12.rec.Class("full grid")
 }
 
+// genC12Sequence: several calls on ONE client, one after the other or overlapping, with requests of different
+// shapes and sizes (short after long, long after short), some answered in a later try: every transmission of every
+// call must be that call's own request, byte for byte — whatever the client sent before.
+func genC12Sequence(v6 bool) *rapid.Generator[cliScenario] {
+	return rapid.Custom(func(t *rapid.T) cliScenario {
+		sc := cliScenario{V6: v6, T: 16 * rapid.SampledFrom([]int{1, 2, 4}).Draw(t, "T16"), Tries: rapid.IntRange(1, 4).Draw(t, "tries"), CloseAt: -1, Dest: rapid.IntRange(0, 3).Draw(t, "dest")}
+		types := wantTypes(v6)
+		n := rapid.IntRange(2, 5).Draw(t, "ncalls")
+		after := 0
+		overlap := rapid.Bool().Draw(t, "overlap")
+		serial := 1
+		for i := 0; i < n; i++ {
+			c := cliCall{Start: callStart(i, after), Xid: i % 3, Variant: rapid.IntRange(0, 3).Draw(t, "variant"), Matcher: 1, Want: types[0], CancelAt: -1, Deadline: -1}
+			if overlap && i%3 != 0 {
+				c.Xid = (i + 1) % 3 // overlapping calls need distinct ids
+			}
+			sched := sc.T * ((1 << uint(sc.Tries)) - 1)
+			if k := rapid.IntRange(-1, sc.Tries-1).Draw(t, "answered-in-try"); k >= 0 {
+				at := evTick(c.Start + sc.T*((1<<uint(k))-1) + rapid.IntRange(1, sc.T*(1<<uint(k))-4).Draw(t, "offset"))
+				sc.Dels = append(sc.Dels, cliDeliver{At: at, Kind: dgGood, Xid: c.Xid, Typ: c.Want, Serial: serial})
+				serial++
+			}
+			sc.Calls = append(sc.Calls, c)
+			if overlap && i%3 != 2 {
+				after = c.Start + 2
+			} else {
+				after = c.Start + sched + 16
+			}
+		}
+		return sc
+	})
+}
+
 func TestC12_Rapid(t *testing.T) {
 	curT = t
 	c12.rapidCheck(t, rapid.Custom(func(rt *rapid.T) cliScenario {
+		if rapid.IntRange(0, 2).Draw(rt, "class") == 0 {
+			return genC12Sequence(rapid.Bool().Draw(rt, "v6")).Draw(rt, "sequence")
+		}
 		tries := rapid.IntRange(-1, 6).Draw(rt, "tries")
 		n := tries
 		if n < 0 {
@@ -382,3 +430,114 @@ func TestC12_Rapid(t *testing.T) {
 }
 
 var _ = fmt.Sprint
+
+// ---- C12 / C10: a response that arrives while the transmission is still in progress ---------------
+
+type c12Instant struct {
+	V6       bool `json:"v6"`
+	T        int  `json:"timeout_ticks"`
+	Tries    int  `json:"tries"`
+	ReplyTry int  `json:"reply_try"` // the reply is handed to the client from inside the WriteTo of this try (0-based)
+	Accept   bool `json:"accept"`    // whether the call's matcher accepts it
+	Variant  int  `json:"variant"`
+	Dest     int  `json:"dest"`
+}
+
+// c12instant: the responder is so fast that its reply is read by the client's receive loop before the client's own
+// WriteTo has returned (a responder on the same host, an in-memory transport). Both clients register the
+// transaction before they transmit, so such a reply belongs to the call: accepted, it ends the call at that very
+// instant and nothing is retransmitted; rejected by the matcher, it changes nothing.
+var c12instant = newChk("C12", "instant-reply",
+	"one call per scenario under virtual time; the scripted connection delivers the reply from inside the WriteTo of try k and lets the receive loop consume it before WriteTo returns; an accepted reply ends the call at T×(2^k−1) after exactly k+1 transmissions, a rejected one leaves the schedule untouched (n transmissions, no-response error at T×(2^n−1)); non-trivial = every case; distinct by case hash",
+	func(rec *obs.Rec, c c12Instant) *obs.Fail {
+		name := "nclient4"
+		if c.V6 {
+			name = "nclient6"
+		}
+		type result struct {
+			serial, typ int
+			isNil       bool
+			err         string
+			at          int
+		}
+		var res result
+		var writes []int
+		tick := time.Millisecond
+		prob := inBubble(curT, func() {
+			var ad cliAdapter = &v4Adapter{}
+			if c.V6 {
+				ad = &v6Adapter{}
+			}
+			ad.setDest(c.Dest)
+			conn := netsim.New(64)
+			if err := ad.start(conn, time.Duration(c.T)*tick, c.Tries, false); err != nil {
+				panic(err)
+			}
+			types := wantTypes(c.V6)
+			typ := types[0]
+			if !c.Accept {
+				typ = types[1]
+			}
+			n := 0
+			conn.OnWrite = func(w netsim.Write) {
+				writes = append(writes, int(w.At/tick))
+				if n == c.ReplyTry {
+					conn.Deliver(ad.datagram(dgGood, 1, typ, 77, 2, 0, 0), ad.dest())
+					synctest.Wait() // the receive loop has taken the datagram and waits for the next one
+				}
+				n++
+			}
+			req, _ := ad.request(1, c.Variant)
+			done := make(chan struct{})
+			go func() {
+				defer close(done)
+				s, ty, isNil, _, err := ad.call(context.Background(), req, func(serial, t int) bool { return t == types[0] }, false)
+				res = result{s, ty, isNil, ad.classify(err), int(conn.Since() / tick)}
+			}()
+			<-done
+			_ = ad.close()
+		})
+		if prob != "" {
+			return obs.Failf("C12/"+name+"/instant-reply/panic-or-leak", "the call returns and Close leaves nothing behind", "%s", clipS(prob))
+		}
+		wantN, wantAt, wantErr := c.Tries, c.T*((1<<uint(c.Tries))-1), "no-response"
+		if c.Accept {
+			wantN, wantAt, wantErr = c.ReplyTry+1, c.T*((1<<uint(c.ReplyTry))-1), "nil"
+		}
+		if res.isNil && res.err == "nil" {
+			return obs.Failf("C12/"+name+"/instant-reply/nil-nil", "a response or an error", "(nil, nil)")
+		}
+		if res.err != wantErr || (c.Accept && res.serial != 77) {
+			return obs.Failf("C12/"+name+"/instant-reply/outcome", fmt.Sprintf("%s (reply handed over inside the transmission of try %d, accepted by the matcher: %v)", wantErr, c.ReplyTry, c.Accept), "%s serial %d at tick %d after %d transmissions", res.err, res.serial, res.at, len(writes))
+		}
+		if len(writes) != wantN {
+			return obs.Failf("C12/"+name+"/instant-reply/transmission-count", fmt.Sprintf("%d transmissions", wantN), "%d at ticks %v", len(writes), writes)
+		}
+		for i, w := range writes {
+			if w != c.T*((1<<uint(i))-1) {
+				return obs.Failf("C12/"+name+"/instant-reply/transmission-instant", "ticks 0, T, 3T, …", "%v (T=%d)", writes, c.T)
+			}
+		}
+		if res.at != wantAt {
+			return obs.Failf("C12/"+name+"/instant-reply/return-instant", fmt.Sprintf("tick %d", wantAt), "tick %d", res.at)
+		}
+		rec.Class(name)
+		rec.NonTrivial(obs.HashJSON(c), func() any { return c })
+		return nil
+	})
+
+func TestC12_InstantReply(t *testing.T) {
+	curT = t
+	for _, v6 := range []bool{false, true} {
+		for tries := 1; tries <= 4; tries++ {
+			for k := 0; k < tries; k++ {
+				for _, acc := range []bool{true, false} {
+					for variant := 0; variant < 4; variant++ {
+						c12instant.one(t, c12Instant{V6: v6, T: 16 * (1 + variant), Tries: tries, ReplyTry: k, Accept: acc, Variant: variant, Dest: (variant + k) % 4})
+					}
+				}
+			}
+		}
+	}
+	c12instant.rec.Class("grid: tries 1..4 × try of the reply × accepted/rejected × request shapes")
+}
